@@ -322,7 +322,41 @@ def r5(ctx):
     ctx.floor(R, 1)
 
 
+def r7(ctx, R="C05-R7"):
+    ctx.rule(R, "the two clock families advance by the same amount per step: Sim::elapsed and HostTimer::elapsed add the nominal "
+                "Config::tick, every tokio clock is advanced by `sleep(tick)` in Rt::tick, and tokio timers fire on a millisecond grid - "
+                "so the tick must be a whole number of milliseconds (Builder::build / tick_duration validate Config::tick and reject "
+                "anything else) or the runtimes must be advanced by exactly the nominal duration (tokio::time::advance). Otherwise every "
+                "step moves the tokio clocks - and the links, which are scheduled on the topology runtime's clock - further than virtual time")
+    rt = ctx.body(R, "turmoil::rt::Rt::tick")
+    bd = ctx.body(R, "turmoil::builder::Builder::build")
+    if not rt or not bd:
+        return
+    sleeps = any(True for fb in ctx.w.family(rt.id) for _ in fb.calls("tokio::time::sleep"))
+    advances = any(True for fb in ctx.w.family(rt.id) for _ in fb.calls(re.compile(r"^tokio::time::(advance|clock::advance)$")))
+    TICKF = "field:turmoil::config::Config::tick"
+    validated = False
+    for fid in ("turmoil::builder::Builder::build", "turmoil::builder::Builder::tick_duration"):
+        b = ctx.w.bodies.get(fid)
+        if not b:
+            continue
+        for sbb, t in switch_blocks(b):
+            at = Slicer(ctx.w).atoms(b, t["d"])
+            arg_tick = fid.endswith("tick_duration") and any(a.startswith("arg:2:") for a in at)
+            if (TICKF in at or arg_tick) and any(re.search(r"subsec_(nanos|micros)|as_nanos|as_micros|binop:Rem", a) for a in at):
+                # one side of the test must diverge (panic) or return an error
+                if any(not reaches_return(b, x) for x in b.succ(sbb)):
+                    validated = True
+    ok = (not sleeps) or advances or validated
+    ctx.inst(R, "tick:whole-milliseconds", ok, rt.span, "tokio clocks and virtual time advance by the same amount per step" if ok else
+             "Rt::tick advances every tokio clock with sleep(tick) (millisecond timer granularity) while Sim::elapsed / HostTimer add the nominal tick, and "
+             "nothing restricts Config::tick to whole milliseconds: with tick = 250us a host's tokio clock reads 30 ms when sim_elapsed reads 7.5 ms, and a "
+             "5 ms latency is delivered after 1.25 ms of virtual time")
+    ctx.floor(R, 1)
+
+
 def run(ctx):
+    r7(ctx)
     scan_rule(ctx, "C05")
     r5(ctx)
     r1(ctx)
